@@ -87,7 +87,8 @@ REGION_BOXES = [
 ]
 LINE_TEXTS = [None, '   ', 'a b']
 # lines whose export must not depend on their neighbours (script detection, punctuation at word borders)
-MULTI_TEXTS = ['ab', 'a, b.', 'x-y: "b"', 'با', 'ب ا', 'اب, x.', '1 2']
+MULTI_TEXTS = ['ab', 'a, b.', 'x-y: "b"', 'با', 'ب ا', 'اب, x.', '1 2',
+               'be\u0301 a\u030a', 'y\u0323\u0307 \u1e69\u0301']     # not in Unicode normal form C (decomposed accents; marks not in canonical order): the words are the words as they are
 
 
 def run_shard(shard, ctx, tier):
@@ -448,6 +449,27 @@ def check_text(case, ctx):
             check_export(page2, minconf, ctx, f'{ID}/{mode}/after-earlier-exports', desc + ' (page exported before its logits were ' +
                          ('attached' if mode in PEAKY else 'removed') + ')', sub)
             ctx.tag('export-history-on-one-page')
+        # another history on one page object: the page quality is estimated (get_quality aligns every line), then the line is corrected by hand
+        # (new transcription, old logits) or recognised again (new transcription with its logits) - the export is that of the page as it is now
+        if ws and bi == 0 and ci == 0 and mode in ('aligned', 'tight', 'diffuse'):
+            for how in ('corrected-by-hand', 'recognised-again'):
+                l3 = make_line('r1-l001', 'b a', 'aligned', baseline=bshape)
+                page3 = make_page([('r1', REGION_BOXES[1], [make_line('r1-l000', 'b a', 'aligned', y=120), l3])])
+                try:
+                    page3.get_quality()
+                except Exception:  # noqa  (get_quality is not the subject of this property)
+                    ctx.tag('get_quality-raised')
+                    break
+                ctx.executed()
+                l3.transcription = text
+                if how == 'recognised-again':
+                    l3.logits, l3.characters, l3.logit_coords = make_logits(text, mode, CHARSET)
+                    l3._verif_mode = mode
+                else:
+                    l3._verif_mode = None
+                check_export(page3, minconf, ctx, f'{ID}/{mode}/after-get_quality', desc + f' (get_quality() was called on the page when the line read "b a", '
+                             f'then the line was {how})', sub)
+                ctx.tag('export-after-get_quality')
         if len(ws) >= 2 and mode in ('aligned', 'diffuse', 'nowindow', 'tight', 'exact'):
             ctx.nontrivial((text, mode), 'multi-word-aligned')
         if any(ch in text for ch in ALPHA[4:]) and ws:
@@ -597,7 +619,7 @@ def describe(tier):
         'assumptions': ['print space compared exactly for integer region coordinates, within 2 px for fractional ones (values are truncated separately)',
                         'a line counts as dropped iff the confidence the export stored on it is below min_line_confidence; that confidence must be > 0.99 for one-hot-like posteriors and <= 0.5 for near-uniform or unalignable ones'],
         'min_nontrivial': 100,
-        'required_tags': ['lines-with-different-character-tables', 'more-than-nine-blocks-or-lines', 'export-history-on-one-page', 'lines-with-more-than-1000-frames', 'mixed-script-pages', 'multi-word-aligned', 'two-region-pages', 'arabic-line-exported', 'order-conversion-reorders',
+        'required_tags': ['export-after-get_quality', 'lines-with-different-character-tables', 'more-than-nine-blocks-or-lines', 'export-history-on-one-page', 'lines-with-more-than-1000-frames', 'mixed-script-pages', 'multi-word-aligned', 'two-region-pages', 'arabic-line-exported', 'order-conversion-reorders',
                           'non-ascii-or-tab-white-space', 'fallback-branch', 'line-dropped-by-confidence-filter',
                           'print-space-not-reaching-page-edge'],
     }
